@@ -46,7 +46,18 @@ func readTlvStream(
 				break
 			}
 
+			// A block larger than the maximum packet size is never accepted. Checking the length
+			// before it is converted to int keeps tlvSize positive (a length >= 2^63 would make it
+			// negative or zero: slice panic / endless loop), and rejecting an oversize block as soon
+			// as its header is known guarantees that an incomplete block is shorter than one packet,
+			// so the shift below always leaves room for the next Read.
+			if uint64(len) > defn.MaxNDNPacketSize {
+				return errors.New("received TLV block larger than the maximum packet size")
+			}
 			tlvSize := typ.EncodingLength() + len.EncodingLength() + int(len)
+			if tlvSize > defn.MaxNDNPacketSize {
+				return errors.New("received TLV block larger than the maximum packet size")
+			}
 
 			if recvOff-tlvOff >= tlvSize {
 				// Packet was successfully received, send up to link service
